@@ -45,3 +45,5 @@ def run(ctx):
     from . import round3 as R3
     R3.r01_10_tree_untouched(ctx, 'R08.13')
     R3.r08_14_verdict_is_a_set(ctx, 'R08.14')
+    from . import helpers_rules as H_
+    H_.r16_2_kind_first(ctx, 'R08.15')
